@@ -279,7 +279,7 @@ from coba.pipes.readers import ArffReader
 def lazy_arff(sym, fmt, third):
     cells = []
     for r in range(2):
-        a = sym.choice(f'a{r}', ['1','?','0'] if fmt=='dense' else ['1','?',None])
+        a = sym.choice(f'a{r}', ['1','?','0',''] if fmt=='dense' else ['1','?',None])       # '': an empty dense field (read as a missing value, though the row is not flagged)
         b = sym.choice(f'b{r}', ['X','?','Z'] if fmt=='dense' else ['Y','?',None])
         c = sym.choice(f'c{r}', (['3','?'] if third=='numeric' else ['s','?']) + ([] if fmt=='dense' else [None]))
         cells.append((a,b,c))
@@ -290,7 +290,7 @@ def lazy_arff(sym, fmt, third):
     rows = list(ArffReader().filter(lines))
     sym.check(len(rows) == 2, "row count")
     def expect(j, txt):
-        if txt == '?': return ('none',)
+        if txt == '?' or txt == '': return ('none',)
         if txt is None:   # absent in a sparse row: default zero / first nominal level
             return ('num',0.0) if j != 1 and not (j==2 and third=='string') else ('default',)
         if j == 0 or (j == 2 and third == 'numeric'): return ('num', float(txt))
